@@ -372,6 +372,10 @@ BASE_TRUST = [
 def cmd_check(prop, tier, repo, seed):
     t0 = time.time()
     all_obs = OBL.for_property(prop, tier)
+    only = [m for m in os.environ.get('VERIF_ONLY_MODULES', '').split(',') if m]
+    if only:
+        # seeded-change runs: keep the obligations over functions of the changed source files
+        all_obs = [o for o in all_obs if o['module'] in only or any(f.split('::')[0] in only for f in o['fn'])]
     if not all_obs:
         print(f'no obligations registered for {prop}')
         return 2
